@@ -14,7 +14,9 @@ RULE = ("every format {json, orjson, yaml, msgpack, toml} x every schema of the 
         "format's declared native types left native and (TOML) null fields absent; (c) mixin document == codec document == one-shot "
         "document; (d) classes with different Config.orjson_options (eager / lazy / self-referencing) defined one after the other: each "
         "to_jsonb equals orjson.dumps under ITS OWN options, a keyword overrides; (e) a field annotated with a base class holding a "
-        "subclass instance (class-level discriminator) in 4 shapes x every format mixin: document == format encoding of to_dict(), and back. Non-trivial: the value's basic form differs from the value.")
+        "subclass instance (class-level discriminator) in 4 shapes x every format mixin: document == format encoding of to_dict(), and back; "
+        "(f) 60 strings that look like the formats' own syntax x 6 positions (only / last field, last list item, dict value, dict key, bare document) "
+        "x every format x codec and mixin. Non-trivial: the value's basic form differs from the value.")
 ASSUMPTIONS = [
     "representable subset (part of the enumerator): string map keys for json/orjson/msgpack/toml, no bool/None/float keys for yaml, 64-bit ints for "
     "orjson/msgpack/toml, naive times for orjson/toml, no null inside containers for toml, table at top level for toml",
@@ -50,6 +52,8 @@ def units(tier):
     # (last element: whether the FIRST to_jsonb call on each class already carries an explicit orjson_options= argument)
     out += [("orjson_options", oa, sa, ob, sb, first) for oa in OPTS for ob in OPTS for sa in STYLES for sb in STYLES
             for first in ("plain-first", "option-first")]
+    # strings that look like syntax of the formats themselves, at the first / last / only position of the document
+    out += [("strings", fmt, pos) for fmt in formats.FORMATS for pos in STRING_POSITIONS]
     # a field annotated with a base class holding an instance of a subclass (class-level discriminator, so the tag restores the class)
     out += [("subclass", fmt, shape, first) for fmt in formats.FORMATS for shape in ("direct", "list", "opt", "dict")
             for first in ("to_dict", "format")]
@@ -248,6 +252,80 @@ def _run_options(unit):
     return res
 
 
+STRING_POSITIONS = ("only_field", "last_field", "last_list_item", "dict_value", "dict_key", "bare")
+SYNTAX_STRINGS = ["...", "wait...", "---", "--- x", "null", "~", "Null", "true", "yes", "no", "on", "1", "1.0", "1e3", "0x1f", "0o7", "2001-01-01",
+                  "2001-01-01T00:00:00", "12:30", " lead", "trail ", "\ttab", "a: b", "a:b", "# c", "x #y", "- item", "[1]", "{a: 1}", "{}", "[]", "!tag",
+                  "&anchor", "*alias", "|", ">", "%", "@", "`", "'", '"', "''", '\"', "\\", "\\n", "a\nb", "a\r\nb", "\r", "\u2028", "\x85", "\ufeffbom", "\x7f",
+                  "=", "a = 1", "[table]", "key.dot", "\U0001F600", "", " "]
+
+
+def run_strings(unit):
+    """str values are data in every format: decode(encode(v)) == v and the parsed document equals the basic form, for strings that
+    look like the format's own syntax, placed where an emitter or a post-processing step is most likely to treat them specially."""
+    _, fmt, pos = unit
+    res = core.UnitResult()
+    Enc, Dec = formats.codecs(fmt)
+    Mixin, to_name, from_name = formats.mixin(fmt)
+
+    def V(clause, oc, s_, ep, detail):
+        res.violation(f"{clause}|strings|{fmt}|{pos}|{ep}|{s_!r}", clause, oc,
+                      dict(desc=None, format=fmt, entry=ep, value_index=-1, unit=unit, string=s_, facts={}), detail)
+    with space.Ctx() as ctx:
+        ctx.ns["_FB"] = Mixin
+        if pos == "bare":
+            if fmt == "toml":
+                res.states += 1
+                return res           # a TOML document is a table
+            T, mk, get = str, (lambda s_: s_), (lambda v: v)
+            M = None
+        else:
+            hint = {"only_field": "    s: str\n", "last_field": "    a: int\n    s: str\n", "last_list_item": "    a: int\n    s: List[str]\n",
+                    "dict_value": "    s: Dict[str, str]\n", "dict_key": "    s: Dict[str, int]\n"}[pos]
+            M = ctx.execute("SM", f"@dataclass\nclass SM(_FB):\n{hint}")
+            T = ctx.execute("SP", f"@dataclass\nclass SP:\n{hint}")
+
+            def mkargs(s_):
+                return {"only_field": dict(s=s_), "last_field": dict(a=1, s=s_), "last_list_item": dict(a=1, s=["x", s_]),
+                        "dict_value": dict(s={"k": s_}), "dict_key": dict(s={s_: 1})}[pos]
+            mk = lambda s_: T(**mkargs(s_))     # noqa: E731
+        enc, dec = Enc(T), Dec(T)
+        for s_ in SYNTAX_STRINGS:
+            if fmt == "toml" and pos == "dict_key" and False:
+                continue
+            v = mk(s_)
+            routes = [("codec", lambda: enc.encode(v), lambda doc: dec.decode(doc), v)]
+            if M is not None:
+                mv = M(**mkargs(s_))
+                routes.append(("mixin", lambda: getattr(mv, to_name)(), lambda doc: getattr(M, from_name)(doc), mv))
+            for ep, E, D, val in routes:
+                res.cases += 1
+                res.transitions += 2
+                r = e1.outcome(E)
+                if r[0] == "exc":
+                    if fmt in ("toml", "yaml") and isinstance(r[1], (ValueError, TypeError)) and any(ord(c) < 32 or ord(c) == 127 for c in s_):
+                        res.counters[f"outside_representable_subset_{fmt}"] += 1      # control characters the format's writer refuses
+                        continue
+                    V("encode-raised", type(r[1]).__name__, s_, ep, f"string={s_!r} {r[1]!r:.200}")
+                    continue
+                back = e1.outcome(D, r[1])
+                if back[0] == "exc" or back[1] != val:
+                    V("roundtrip-neq", "neq", s_, ep, f"string={s_!r} at {pos}: document={r[1]!r:.200} back={back[1]!r:.200}")
+                    continue
+                try:
+                    parsed = formats.parse(fmt, r[1])
+                except Exception as e:   # noqa: BLE001
+                    V("document-unparseable", type(e).__name__, s_, ep, f"string={s_!r} doc={r[1]!r:.200} {e!r:.150}")
+                    continue
+                want = s_ if pos == "bare" else mkargs(s_)
+                if parsed != want:
+                    V("document-neq-basic-form", "neq", s_, ep, f"string={s_!r} at {pos}: expected={want!r} parsed={parsed!r:.200}")
+                    continue
+                res.outcomes["ok"] += 1
+                res.nontrivial += 1
+    res.states += 1
+    return res
+
+
 def run_subclass(unit):
     """Root.m is annotated Base and holds A(Base) / B(Base): the format document must be the format encoding of to_dict()
     (the instance's own fields and tag), and decoding it must give the value back."""
@@ -314,6 +392,8 @@ def run_unit(unit, only=None):
         return run_options(unit)
     if unit[0] == "subclass":
         return run_subclass(unit)
+    if unit[0] == "strings":
+        return run_strings(unit)
     d, fmt = unit
     res = core.UnitResult()
     Mixin, to_name, from_name = formats.mixin(fmt)
@@ -434,6 +514,8 @@ def run_unit(unit, only=None):
 
 
 def replay(case):
+    if case.get("unit") and case["unit"][0] == "strings":
+        return [v for v in run_strings(tuple(case["unit"])).violations if v["case"]["string"] == case["string"] and v["case"]["entry"] == case["entry"]]
     if case.get("unit") and case["unit"][0] == "subclass":
         return [v for v in run_subclass(tuple(case["unit"])).violations if v["case"]["value_index"] == case["value_index"]]
     if case.get("unit"):
